@@ -1084,11 +1084,11 @@ class Quaternion(np.ndarray):
         if self.is_versor():
             if self.is_pure():
                 return np.array([0.0, *(0.5*np.pi*u)])
-            return np.array([0.0, *(u*np.arccos(self.w))])
+            return np.array([0.0, *(u*np.arctan2(norm_v, self.w))])     # arccos(w) is NaN when rounding leaves w above 1
         qn = np.linalg.norm(self.A)
         if self.is_pure():
             return np.array([np.log(qn), *(0.5*np.pi*u)])
-        return np.array([np.log(qn), *(u*np.arccos(self.w/qn))])
+        return np.array([np.log(qn), *(u*np.arctan2(norm_v, self.w))])
 
     @property
     def log(self) -> np.ndarray:
